@@ -326,6 +326,31 @@ fn main() {
         });
         sink.merge(sp);
     }
+    // a well-formed record followed by a record whose handshake message has one lying length (session id > 32, odd cipher
+    // list, over-long cookie, ...): the datagram still decodes record by record (the first record is returned)
+    {
+        use vcommon::en::{apply, lies, Dev};
+        let first = cat::dtls_record(0x14, 0xfefd, 0, 1, |w| { w.u8(1); }).buf;
+        let first_hs = cat::dtls_record(0x16, 0xfefd, 0, 2, |w| { w.append(&cat::dtls_hs(14, 3, None, 0, |_| {})); }).buf;
+        let msgs = cat::dtls_handshake_messages();
+        let sd = par_run(run.threads, msgs.len(), |i, sink| {
+            let m = &msgs[i];
+            let rec = cat::dtls_record(0x16, 0xfefd, 0, 9, |w| { w.append(m); });
+            for (k, l) in rec.lens.iter().enumerate() {
+                for v in lies(l) {
+                    let bad = apply(&rec, &[Dev::Lie(k, v)], &[]);
+                    for f in [&first, &first_hs] {
+                        let mut d = f.clone();
+                        d.extend_from_slice(&bad);
+                        vchecks::multi::check(&d, sink);
+                        d.extend_from_slice(f);
+                        vchecks::multi::check(&d, sink);
+                    }
+                }
+            }
+        });
+        sink.merge(sd);
+    }
     // version x cookie length grid: all 256 cookie lengths under 12 versions, for both cookie-carrying messages
     let mut grid: Vec<vcommon::en::W> = Vec::new();
     for ver in [0xfeffu16, 0xfefe, 0xfefd, 0xfefc, 0xfe00, 0x0303, 0x0301, 0x0000, 0xffff, 0x8000, 0x7fff, 0xff00] {
